@@ -1171,6 +1171,9 @@ fn run_grammar_case(out: &mut Out, d: &Desc, stages: usize) {
     let r16 = build_width::<u16>(&g, shared_ast.as_ref(), stages, with_lex, cpct);
     let r8 = build_width::<u8>(&g, shared_ast.as_ref(), stages, with_lex, cpct);
     let mut fails: Vec<String> = Vec::new();
+    if let Some(e) = CT_FAIL.lock().unwrap().take() {
+        fails.push(e);
+    }
     // the generator's counts are the source counts: cross-check with the AST
     {
         let a = ASTWithValidityInfo::new(g.yk, &g.text);
@@ -1587,6 +1590,54 @@ fn parse_request(p: &str) -> Option<Case> {
     }
 }
 
+static CT_FAIL: std::sync::Mutex<Option<String>> = std::sync::Mutex::new(None);
+
+/// `CTParserBuilder` on a grammar with 300 tokens, in ONE process: 8-bit storage is refused (the documented
+/// panic), and that refusal must leave the builder usable: the same grammar then builds with 16-bit storage,
+/// and a small grammar with 8-bit storage. `None` = as the property demands.
+fn ct_width_sequence(tmp: &std::path::Path) -> Option<String> {
+    use lrpar::CTParserBuilder;
+    let dir = tmp.join("c20ct");
+    let _ = std::fs::remove_dir_all(&dir);
+    std::fs::create_dir_all(&dir).ok()?;
+    let names: Vec<String> = (0..300).map(|i| format!("'T{}'", i)).collect();
+    let big = format!("%start S\n%%\nS: {};\n", names.join(" | "));
+    let small = "%start S\n%%\nS: 'a' | S 'b';\n";
+    let (gp, sp) = (dir.join("big.y"), dir.join("small.y"));
+    std::fs::write(&gp, &big).ok()?;
+    std::fs::write(&sp, small).ok()?;
+    macro_rules! build {
+        ($t:ty, $g:expr, $o:expr) => {
+            guarded(AssertUnwindSafe(|| {
+                CTParserBuilder::<DefaultLexerTypes<$t>>::new()
+                    .yacckind(YaccKind::Original(YaccOriginalActionKind::NoAction))
+                    .grammar_path($g)
+                    .output_path($o)
+                    .build()
+                    .map(|_| ())
+                    .map_err(|e| e.to_string())
+            }))
+        };
+    }
+    let r8: Result<Result<(), String>, String> = build!(u8, &gp, &dir.join("big8.rs"));
+    let verdict = match &r8 {
+        Err(m) if m.contains("big enough") => {
+            let r16: Result<Result<(), String>, String> = build!(u16, &gp, &dir.join("big16.rs"));
+            let s8: Result<Result<(), String>, String> = build!(u8, &sp, &dir.join("small8.rs"));
+            match (r16, s8) {
+                (Ok(Ok(())), Ok(Ok(()))) => None,
+                (r16, s8) => Some(format!(
+                    "ct-builder-after-refusal: after `CTParserBuilder` refused a 300-token grammar with 8-bit storage ({}), in the same process the 16-bit build of that grammar gives {:?} and the 8-bit build of a two-token grammar gives {:?}",
+                    m, r16, s8
+                )),
+            }
+        }
+        other => Some(format!("ct-builder-refusal: `CTParserBuilder` with 8-bit storage on a grammar with 300 tokens gives {:?}, not the documented refusal", other)),
+    };
+    let _ = std::fs::remove_dir_all(&dir);
+    verdict
+}
+
 pub fn run(a: &Args) {
     if a.extra.first().map(|s| s.as_str()) == Some("--dump-contexts") {
         let seed = a.extra.get(1).and_then(|x| x.parse().ok()).unwrap_or(1);
@@ -1646,6 +1697,11 @@ pub fn run(a: &Args) {
                 }
             }
         });
+    }
+    if a.replay.is_some() || a.shard == 0 {
+        // the compile-time builder at two widths in one process (rides on the first grammar case)
+        out.count("ct_builder_width_sequences");
+        *CT_FAIL.lock().unwrap() = ct_width_sequence(&a.out);
     }
     if let Some(rp) = &a.replay {
         let txt = std::fs::read_to_string(rp).unwrap_or_default();
